@@ -39,6 +39,12 @@ func (l localOptimizer) run(method localMethod, gradThresh float64, operation ch
 		l.finish(operation, result)
 		return NotTerminated, nil
 	}
+	if status != NotTerminated {
+		// The starting location is already converged: there is
+		// no descent direction to initialize the method with.
+		l.finishMethodDone(operation, result, task)
+		return status, nil
+	}
 	op, err := method.initLocal(task.Location)
 	if err != nil {
 		l.finishMethodDone(operation, result, task)
